@@ -72,16 +72,18 @@ type F3KeyTags struct {
 	POpt *string
 }
 
-var fedNames = []string{"F1", "F2", "F3"}
+// the GraphQL name of the third object contains an underscore (federation field names are
+// <service>_<object>)
+var fedNames = []string{"F1", "F2", "F_3"}
 
 var fedKeyTypes = map[string]map[string]reflect.Type{
-	"F1": {"all": reflect.TypeOf(&F1{}), "id": reflect.TypeOf(F1KeyId{}), "org": reflect.TypeOf(F1KeyOrg{}), "tags": reflect.TypeOf(F1KeyTags{})},
-	"F2": {"all": reflect.TypeOf(&F2{}), "id": reflect.TypeOf(F2KeyId{}), "org": reflect.TypeOf(F2KeyOrg{}), "tags": reflect.TypeOf(F2KeyTags{})},
-	"F3": {"all": reflect.TypeOf(&F3{}), "id": reflect.TypeOf(F3KeyId{}), "org": reflect.TypeOf(F3KeyOrg{}), "tags": reflect.TypeOf(F3KeyTags{})},
+	"F1":  {"all": reflect.TypeOf(&F1{}), "id": reflect.TypeOf(F1KeyId{}), "org": reflect.TypeOf(F1KeyOrg{}), "tags": reflect.TypeOf(F1KeyTags{})},
+	"F2":  {"all": reflect.TypeOf(&F2{}), "id": reflect.TypeOf(F2KeyId{}), "org": reflect.TypeOf(F2KeyOrg{}), "tags": reflect.TypeOf(F2KeyTags{})},
+	"F_3": {"all": reflect.TypeOf(&F3{}), "id": reflect.TypeOf(F3KeyId{}), "org": reflect.TypeOf(F3KeyOrg{}), "tags": reflect.TypeOf(F3KeyTags{})},
 }
 
 func init() {
-	ObjTypes["F1"], ObjTypes["F2"], ObjTypes["F3"] = reflect.TypeOf(F1{}), reflect.TypeOf(F2{}), reflect.TypeOf(F3{})
+	ObjTypes["F1"], ObjTypes["F2"], ObjTypes["F_3"] = reflect.TypeOf(F1{}), reflect.TypeOf(F2{}), reflect.TypeOf(F3{})
 	UnionTypes["FU"] = reflect.TypeOf(FU{})
 	UnionMembers["FU"] = []string{"F1", "F2"}
 }
@@ -101,7 +103,7 @@ func mkFed(typ string, id int64) interface{} {
 		return &F1{Id: id, OrgId: id % 3, Name: fmt.Sprintf("n%d", id), Tags: tags, POpt: opt}
 	case "F2":
 		return &F2{Id: id, OrgId: id % 2, Label: fmt.Sprintf("l%d", id), Tags: tags, POpt: opt}
-	case "F3":
+	case "F_3":
 		return &F3{Id: id, OrgId: id % 4, Flag: id%2 == 0, Tags: tags, POpt: opt}
 	}
 	return nil
@@ -297,7 +299,7 @@ func GenFedSpecFixed() *Spec {
 		s.Objects = append(s.Objects, ObjSpec{Type: o, Fields: []FieldSpec{
 			{Name: "f0", Ret: "int64", Seed: 1, Recv: "ptr", Args: "A"},
 			{Name: "f1", Ret: "listpobj", Target: "F2", Seed: 2, Recv: "ptr", MaxLen: 3},
-			{Name: "f2", Ret: "pobj", Target: "F3", Seed: 3, Recv: "ptr", NilMod: 2, HasErr: true},
+			{Name: "f2", Ret: "pobj", Target: "F_3", Seed: 3, Recv: "ptr", NilMod: 2, HasErr: true},
 			{Name: "f3", Ret: "union", Target: "FU", Seed: 4, Recv: "ptr", NilMod: 3},
 		}})
 	}
